@@ -763,6 +763,95 @@ _dispatch_timer_heap_update(dispatch_timer_heap_t dth,
 	_dispatch_timer_heap_resift(dth, dt, dt->dt_heap_entry[DTH_DEADLINE_ID]);
 }
 
+#if DISPATCH_VERIF
+/*
+ * Verification hook (off by default, enabled with -DDISPATCH_VERIF=1):
+ * structural validator of one timer heap, run after every arm / disarm on the
+ * thread that owns the heap. Reports through an optional callback; `msg` is
+ * NULL when the heap is well formed.
+ */
+__attribute__((__visibility__("default")))
+void (*volatile _dispatch_verif_timer_heap_hook)(int what, uint32_t tidx,
+		uint32_t count, uint32_t segments, uint32_t entry_idx, const char *msg);
+
+static void
+_dispatch_verif_timer_heap_validate(dispatch_timer_heap_t dth, uint32_t tidx,
+		dispatch_timer_source_refs_t dt, int what)
+{
+	void (*cb)(int, uint32_t, uint32_t, uint32_t, uint32_t, const char *) =
+			_dispatch_verif_timer_heap_hook;
+	uint32_t count = dth->dth_count, segments = dth->dth_segments, idx;
+	uint32_t entry_idx = dt->dt_heap_entry[DTH_TARGET_ID];
+	const char *msg = NULL;
+
+	if (!cb) return;
+	if (count % DTH_ID_COUNT) {
+		msg = "count not a multiple of the number of heaps";
+		goto out;
+	}
+	if (count > _dispatch_timer_heap_capacity(segments)) {
+		msg = "count beyond the allocated capacity";
+		goto out;
+	}
+	if (segments && count <= _dispatch_timer_heap_capacity(segments - 1)) {
+		msg = "last segment allocated but unused";
+		goto out;
+	}
+	if ((segments == 0) != (dth->dth_heap == NULL)) {
+		msg = "segment count and heap pointer disagree";
+		goto out;
+	}
+	for (idx = 0; idx < count; idx++) {
+		uint32_t heap_id = DTH_HEAP_ID(idx);
+		dispatch_timer_source_refs_t e, pe;
+		e = *_dispatch_timer_heap_get_slot(dth, idx);
+		if (!e) {
+			msg = "empty slot below count";
+			goto out;
+		}
+		if (e->dt_heap_entry[heap_id] != idx) {
+			msg = "back-index does not name the slot holding the timer";
+			goto out;
+		}
+		if (e->du_ident != tidx) {
+			msg = "timer stored in the heap of another index";
+			goto out;
+		}
+		if (idx >= DTH_ID_COUNT) {
+			pe = *_dispatch_timer_heap_get_slot(dth,
+					_dispatch_timer_heap_parent(idx));
+			if (pe->dt_timer.heap_key[heap_id] >
+					e->dt_timer.heap_key[heap_id]) {
+				msg = "parent key greater than child key";
+				goto out;
+			}
+		}
+	}
+	if (count == 0 && (dth->dth_min[DTH_TARGET_ID] ||
+			dth->dth_min[DTH_DEADLINE_ID])) {
+		msg = "minimum slots not cleared on an empty heap";
+		goto out;
+	}
+	for (idx = count; idx < _dispatch_timer_heap_capacity(segments); idx++) {
+		if (idx >= DTH_ID_COUNT && *_dispatch_timer_heap_get_slot(dth, idx)) {
+			msg = "non-empty slot beyond count";
+			goto out;
+		}
+	}
+	if (what == 0) { // disarm
+		if (dt->dt_heap_entry[DTH_TARGET_ID] != DTH_INVALID_ID ||
+				dt->dt_heap_entry[DTH_DEADLINE_ID] != DTH_INVALID_ID) {
+			msg = "removed timer keeps a heap index";
+		}
+	} else if (dt->dt_heap_entry[DTH_TARGET_ID] >= count ||
+			dt->dt_heap_entry[DTH_DEADLINE_ID] >= count) {
+		msg = "armed timer has no heap index";
+	}
+out:
+	cb(what, tidx, count, segments, entry_idx, msg);
+}
+#endif // DISPATCH_VERIF
+
 #pragma mark timer unote
 
 #define _dispatch_timer_du_debug(what, du) \
@@ -799,6 +888,9 @@ _dispatch_timer_unote_disarm(dispatch_timer_source_refs_t dt,
 	_dispatch_timers_heap_dirty(dth, tidx);
 	_dispatch_unote_state_clear_bit(dt, DU_STATE_ARMED);
 	_dispatch_timer_du_debug("disarmed", dt);
+#if DISPATCH_VERIF
+	_dispatch_verif_timer_heap_validate(&dth[tidx], tidx, dt, 0);
+#endif
 }
 
 static void
@@ -816,6 +908,9 @@ _dispatch_timer_unote_arm(dispatch_timer_source_refs_t dt,
 		_dispatch_timer_du_debug("armed", dt);
 	}
 	_dispatch_timers_heap_dirty(dth, tidx);
+#if DISPATCH_VERIF
+	_dispatch_verif_timer_heap_validate(&dth[tidx], tidx, dt, 1);
+#endif
 }
 
 #define DISPATCH_TIMER_UNOTE_TRACE_SUSPENSION 0x1
